@@ -42,14 +42,21 @@ C04_QUICK = ([_h(f"c04::c04_table__{t}") for t in I8_TYPES] + [_h(f"c04::c04_che
 C04_THOROUGH = C04_QUICK + [_h(f"c04::c04_check4__{t}", bound="degree 4 (generic clauses only)", timeout=1800) for t in I8_TYPES]
 C18_QUICK = ([_h(f"c18::c18_print_parse__{n}", mem_gb=4) for n in NAMES] + [_h(f"c18::c18_clap__{n}", mem_gb=3) for n in NAMES]
              + [_h(f"c18::c18_type__{n}", mem_gb=4) for n in NAMES] + [_h("c18::c18_reject_nonmembers_fromstr", timeout=1800, mem_gb=8)])
-C15_IL_QUICK = ["2x3", "3x2"]
+C15_IL_QUICK = ["2x3", "4x2"]
 C15_IL_ALL = ["1x1", "1x3", "2x2", "2x3", "3x2", "3x3", "2x4", "4x2", "3x1", "5x1", "1x9", "9x1"]
 C15_QUICK = ([_h(f"c15::c15_interleave_{s}", timeout=1500, mem_gb=8, bound=f"shape columns x rows = {s}") for s in C15_IL_QUICK]
              + [_h(f"c15::{n}", mem_gb=6, bound="one pattern, block size as named") for n, nd in PATTERNS if "_p4_" not in n or n.endswith("_b1")])
 C15_THOROUGH = ([_h(f"c15::c15_interleave_{s}", timeout=2400, mem_gb=8, bound=f"shape columns x rows = {s}") for s in C15_IL_ALL]
                 + [_h(f"c15::{n}", mem_gb=6, bound="one pattern, block size as named") for n, nd in PATTERNS])
+C17_KANI = [_h(f"c17::{n}", mem_gb=5, timeout=1500,
+               bound="BOUNDED stand-in: one concrete scenario on a fixed 2x3 or 3x2 matrix; never counted as proved")
+            for n in ["c17_views_fixed", "c17_set_row_wide_repeat", "c17_set_row_wide_other", "c17_set_row_tall_empty",
+                      "c17_set_col_wide_repeat", "c17_set_col_tall_same", "c17_insert_row_wide_mixed", "c17_insert_row_tall_repeat",
+                      "c17_insert_col_wide_new", "c17_insert_col_tall_repeat"]]
 C14_ALL = [_h("c14::c14_bpsk_sign_structure"), _h("c14::c14_bpsk_roundtrip"), _h("c14::c14_psk8_constellation"),
-           _h("c14::c14_psk8_noiseless_hard_decisions", bound="sigma = 0.1; max* axiomatised (max <= max* <= max + ln 2)")]
+           _h("c14::c14_psk8_noiseless_hard_decisions", bound="sigma = 0.1; max* axiomatised (max <= max* <= max + ln 2)"),
+           _h("c14::c14_bpsk_scale_points", bound="concrete points: sigma in {0.5, 2}, five samples"),
+           _h("c14::c14_psk8_scale_points", bound="concrete points: two (sample, sigma) pairs; max* axiomatised")]
 
 PROPS = {
     "C17": {
@@ -58,8 +65,8 @@ PROPS = {
         "verus": [
             {"unit": "sparse", "template": "sparse/unit.rs.in", "rlimit": 60, "canary": True},
         ],
-        "kani": {"quick": [], "thorough": []},
-        "witness": "sparse",
+        "kani": {"quick": C17_KANI, "thorough": C17_KANI},
+        "witness": "c17",
         "assumptions": [
             "vstd specs of Vec/slice/Option (push, len, index, clear, iter)",
             "assume_specification for <[T]>::contains and Vec::retain (over the closure's ensures)",
@@ -77,7 +84,7 @@ PROPS = {
             # one unit per code: the whole real `addresses()` body is verified, the
             # postcondition is asked for this code's arm only (shape, range, no repeats)
             {"unit": f"dvbs2_addr_{c}", "template": "dvbs2/unit_addr.rs.in", "rlimit": 400, "threads": 1,
-             "defines": ["RANGE", "NODUP"], "subst": {"CODE": c},
+             "defines": ["RANGE", "NODUP", "PINNED", f"PIN_{c}"], "subst": {"CODE": c},
              "extra": ["--verify-function", "Code::addresses", "--verify-root"],
              "canary": c == "R8_9short"}
             for c in DVBS2_CODES
@@ -96,7 +103,7 @@ PROPS = {
         "level": "proof",
         "title": "CCSDS AR4JA parity-check matrices conform to CCSDS 131.0-B",
         "verus": [
-            {"unit": "ccsds", "template": "ccsds/unit.rs.in", "rlimit": 100, "canary": True, "timeout": 1200},
+            {"unit": "ccsds", "template": "ccsds/unit.rs.in", "rlimit": 800, "canary": True, "timeout": 2400, "threads": 8},
         ],
         "kani": {"quick": [], "thorough": []},
         "witness": "c07",
